@@ -264,6 +264,10 @@ func (e *Engine) issue(op *COp, why string) (Result, bool, *Violation) {
 		e.St.Probes["listener-detached-itself-in-last-removal-notification"] += e.S.DetachSeen
 		e.S.DetachSeen = 0
 	}
+	if e.S.BuilderReused > 0 {
+		e.St.Probes["long-lived-builder-reused"] += e.S.BuilderReused
+		e.S.BuilderReused = 0
+	}
 	if e.S.KeptSeen > 0 {
 		e.St.Probes["query-kept-open-beyond-removal-notification"] += e.S.KeptSeen
 		e.S.KeptSeen = 0
